@@ -140,6 +140,7 @@ func Execute(sc *Scn) *Result {
 	caps := responder.FromMask(sc.Mask, sc.Alt)
 	con := fakecon.New(80, 24)
 	resp := responder.New(caps, 80, 24, con.Inject)
+	resp.Clipboard = "clip-content"
 	var rmu sync.Mutex
 	replyMode := "ontime"
 	var lastBg string
@@ -153,6 +154,11 @@ func Execute(sc *Scn) *Result {
 		case "late":
 			q := append([]byte(nil), p...)
 			go func() { time.Sleep(90 * time.Millisecond); resp.OnWrite(q) }()
+			return
+		case "early":
+			// the reply is on the wire before the write call returns to the requester
+			resp.OnWrite(p)
+			time.Sleep(3 * time.Millisecond)
 			return
 		case "twice":
 			resp.OnWrite(p)
@@ -269,11 +275,11 @@ func Execute(sc *Scn) *Result {
 						a.Want = "-1,-1"
 					}
 				case "clipboard":
-					ctx, cancel := context.WithTimeout(context.Background(), 60*time.Millisecond)
+					ctx, cancel := context.WithTimeout(context.Background(), 500*time.Millisecond)
 					s, err := vx.ClipboardPop(ctx)
 					cancel()
 					a.Got = fmt.Sprintf("%q,%v", s, err != nil)
-					a.Want = fmt.Sprintf("%q,%v", "", true) // the responder never answers OSC 52
+					a.Want = fmt.Sprintf("%q,%v", "clip-content", false) // the terminal answers OSC 52 at once
 				}
 				done <- a
 			}(st.What)
@@ -467,9 +473,9 @@ func Queries(rng *rand.Rand) *Scn {
 			sc.Steps = append(sc.Steps, Step{Op: "inject", Reports: []Report{{K: "garbage", Hex: hx(strings.Repeat(s, 1+rng.Intn(3)))}}})
 		}
 		w := whats[rng.Intn(len(whats))]
-		reply := "ontime"
+		reply := []string{"ontime", "early"}[rng.Intn(2)]
 		if w == "cpr" {
-			reply = []string{"ontime", "ontime", "late", "never"}[rng.Intn(4)]
+			reply = []string{"ontime", "early", "late", "never"}[rng.Intn(4)]
 		}
 		sc.Steps = append(sc.Steps, Step{Op: "call", What: w, Reply: reply})
 	}
